@@ -238,17 +238,24 @@ func (g *G) MessageOf(kind string) (util.Message, *spec.Node) {
 	panic("gen: unknown message kind " + kind)
 }
 
-var flowModCommands = []uint8{of.FC_ADD, of.FC_MODIFY, of.FC_MODIFY_STRICT, of.FC_DELETE, of.FC_DELETE_STRICT}
+// OF 1.3.5 ofp_flow_mod_command / ofp_group_mod_command, by number
+var flowModCommands = []uint8{0, 1, 2, 3, 4}
 
 func (g *G) FlowMod() (util.Message, *spec.Node) {
 	f := of.NewFlowMod()
 	x := g.xid(&f.Header)
 	f.Cookie, f.CookieMask, f.TableId = g.U64("cookie"), g.U64("cookie_mask"), g.U8("table")
-	f.Command = flowModCommands[g.Pick("command", 5)]
+	cmd := flowModCommands[g.Pick("command", 5)]
+	// the command is a plain field: half of the time it is set last, after everything was added under the
+	// constructor's default (add), the way a caller turns a prepared flow into its removal
+	lateCommand := g.Bool("command_set_last")
+	if !lateCommand {
+		f.Command = cmd
+	}
 	f.IdleTimeout, f.HardTimeout, f.Priority = g.U16("idle"), g.U16("hard"), g.U16("prio")
 	f.BufferId, f.OutPort, f.OutGroup, f.Flags = g.U32("buffer"), g.U32("out_port"), g.U32("out_group"), g.U16("flags")
 	n := spec.N("msg.flow_mod", spec.U("xid", x), spec.U("cookie", f.Cookie), spec.U("cookie_mask", f.CookieMask), spec.U("table_id", uint64(f.TableId)),
-		spec.U("command", uint64(f.Command)), spec.U("idle_timeout", uint64(f.IdleTimeout)), spec.U("hard_timeout", uint64(f.HardTimeout)),
+		spec.U("command", uint64(cmd)), spec.U("idle_timeout", uint64(f.IdleTimeout)), spec.U("hard_timeout", uint64(f.HardTimeout)),
 		spec.U("priority", uint64(f.Priority)), spec.U("buffer_id", uint64(f.BufferId)), spec.U("out_port", uint64(f.OutPort)),
 		spec.U("out_group", uint64(f.OutGroup)), spec.U("flags", uint64(f.Flags)))
 	g.Budget -= 56
@@ -256,7 +263,7 @@ func (g *G) FlowMod() (util.Message, *spec.Node) {
 	f.Match = *m
 	n.Add(mn)
 	k := g.ListLen("ninstr", 8)
-	del := f.Command == of.FC_DELETE || f.Command == of.FC_DELETE_STRICT
+	del := cmd == 3 || cmd == 4
 	for i := 0; i < k; i++ {
 		if g.Budget < 200 {
 			break
@@ -274,6 +281,10 @@ func (g *G) FlowMod() (util.Message, *spec.Node) {
 		}
 		n.Add(inn)
 	}
+	if lateCommand {
+		f.Command = cmd
+		g.Label("flow_mod_command_set_last")
+	}
 	g.Label(fmt.Sprintf("flow_mod_command=%d", f.Command))
 	return f, n
 }
@@ -281,10 +292,14 @@ func (g *G) FlowMod() (util.Message, *spec.Node) {
 func (g *G) GroupMod() (util.Message, *spec.Node) {
 	gm := of.NewGroupMod()
 	x := g.xid(&gm.Header)
-	gm.Command = uint16(g.Pick("command", 3))
+	gcmd := uint16(g.Pick("command", 3))
+	lateCommand := g.Bool("command_set_last")
+	if !lateCommand {
+		gm.Command = gcmd
+	}
 	gm.Type = uint8(g.Pick("type", 4))
 	gm.GroupId = g.U32("group_id")
-	n := spec.N("msg.group_mod", spec.U("xid", x), spec.U("command", uint64(gm.Command)), spec.U("type", uint64(gm.Type)), spec.U("group_id", uint64(gm.GroupId)))
+	n := spec.N("msg.group_mod", spec.U("xid", x), spec.U("command", uint64(gcmd)), spec.U("type", uint64(gm.Type)), spec.U("group_id", uint64(gm.GroupId)))
 	g.Budget -= 16
 	k := g.ListLen("nbuckets", 12)
 	for i := 0; i < k; i++ {
@@ -293,11 +308,15 @@ func (g *G) GroupMod() (util.Message, *spec.Node) {
 		}
 		b, bn := g.Bucket()
 		gm.AddBucket(*b)
-		if gm.Command == of.OFPGC_DELETE {
+		if gcmd == 2 { // OFPGC_DELETE
 			g.Label("delete_with_children")
 			continue
 		}
 		n.Add(bn)
+	}
+	if lateCommand {
+		gm.Command = gcmd
+		g.Label("group_mod_command_set_last")
 	}
 	g.Label(fmt.Sprintf("group_mod_command=%d", gm.Command))
 	return gm, n
